@@ -81,7 +81,9 @@ def _p(*a, **k):
 _p('C01', 'exploration',
    [Part('decl', {}, quick=36000, thorough=1500000)],
    rule='one case = one seeded declaration history (4-25 ops + gc/drop/perm faults) over a generated interface DAG, '
-        'class DAG and instances, checked against DeclModel bounds after every op; distinct_nontrivial = number of '
+        'class DAG and instances (one world in five with classes and instances that are false in a boolean context; callable '
+        'instances declared as factories), checked against DeclModel bounds after every op; three single questions put right before each '
+        'operation are repeated first thing after it (a remembered answer would be served exactly then); distinct_nontrivial = number of '
         'distinct (model lower bound, model upper bound, reported set) abstract states observed for classes and objects',
    assumptions=['DeclModel encodes the documented elision rule: a declaration already implied by the class when made may be dropped',
                 'class __bases__ are never reassigned (documented as unsupported)', REAL_STUB],
@@ -95,7 +97,9 @@ _p('C19', 'exploration',
    [Part('decl', {'super': True}, quick=24000, thorough=600000, name='decl+super')],
    rule='one case = one seeded declaration history with every (C, ob) super proxy along every MRO queried after every op '
         '(providedBy, implementedBy, I.providedBy, queryAdapter/adapter_hook/queryMultiAdapter through a registry holding one '
-        'adapter per interface); distinct_nontrivial = distinct (MRO position, model bound, reported set) states',
+        'adapter per interface); in half of the worlds a simulator-owned dependent of every class specification queries the proxies '
+        'from inside the change notification (re-entrant callback fault) and its last view per declaration call is judged too; '
+        'distinct_nontrivial = distinct (MRO position, model bound, reported set) states',
    assumptions=['bounds come from DeclModel over the classes after C in type(ob).__mro__', REAL_STUB],
    level_text='seeded search over declaration histories (weak per-class super cache, gc faults) with every (C, ob) proxy along '
               'every MRO re-queried after every operation and adapted through a real registry; sampled evidence, not proof',
@@ -109,7 +113,9 @@ _p('C02', 'exploration',
     Part('graph', {'props': ['C02'], 'ifaces_only': True}, configs=[(C, 1), (PY, 1)], quick=6000, thorough=200000,
          name='graph/C02/ifaces')],
    rule='one case = one seeded rebasing history (3-18 ops: __bases__ assignment at interfaces, class specifications, instance '
-        'declarations and plain declarations; creation of new dependents; gc / drop-dependent / permute-notification-order faults) '
+        'declarations and plain declarations -- class specifications also through classImplementsOnly; creation of new dependents; '
+        'gc / drop-dependent / permute-notification-order faults; before each re-basing every specification below it is asked one '
+        'positive question, which is repeated first thing afterwards) '
         'with all ordered pairs (S, T) checked against reachability over the model bases after every op and against a freshly '
         'built isomorphic graph at probe points; distinct_nontrivial = distinct (node kind, #bases, |reachable set|, kinds reached) states',
    assumptions=['cyclic __bases__ assignments are never generated (unbounded recursion, outside the statement)',
@@ -144,7 +150,9 @@ _p('C15', 'exploration',
          name='graph/C15')],
    rule='one case = one seeded history of rebasings interleaved with single accessor calls in PRNG order (memo warm-up) over an '
         'interface DAG in which several ancestors define the same names, tags and invariants; after every op all accessors of all '
-        'interfaces are compared with "first definer along the current __iro__"; distinct_nontrivial = distinct (|iro|, name -> definer) tables',
+        'interfaces are compared with "first definer along the current __iro__" (tag values include None and 0, i.e. values that coincide '
+        'with the defaults callers pass); in half of the worlds a dependent of every interface reads the accessors from inside the change '
+        'notification and is judged against the __iro__ it saw at that moment; distinct_nontrivial = distinct (|iro|, name -> definer) tables',
    assumptions=['"first definer" is computed along the real current __iro__ (whose correctness is C03), from the model\'s direct tables',
                 REAL_STUB],
    level_text='seeded search over rebasing histories interleaved with accessor calls (per-interface attribute memo warmed in PRNG order); '
@@ -172,11 +180,14 @@ _p('C04', 'exploration',
    design_ref='DESIGN.md 3/C04', expected_probes=['probe', 'ambiguous-provided', 'overwrite'])
 
 _p('C05', 'exploration',
-   [Part('registry', {'props': ['C05'], 'shape': 'dynamic'}, configs=REG_CFG, quick=9000, thorough=400000, name='registry/C05', timeout=40.0)],
+   [Part('registry', {'props': ['C05'], 'shape': 'dynamic'}, configs=REG_CFG, quick=7000, thorough=400000, name='registry/C05', timeout=40.0)],
    rule='one case = one seeded history (8-36 ops) mixing every mutation kind (register/unregister/subscribe/unsubscribe on the registry or a base, '
         'rebuild, registry __bases__, __bases__ of required interfaces, class and instance declarations) with lookups through all nine entry points '
         'over a small key pool, plus gc / permute / drop-registry faults; at probe points every key is asked on the warm registries and on a cold '
-        'twin (fresh registries, same mutation history replayed, no lookups), one fresh twin per key and cache family; distinct_nontrivial = '
+        'twin (fresh registries, same mutation history replayed, no lookups), one fresh twin per key and cache family; every call hands in a '
+        'default object of its own, which has to come back by identity from that call only; two more parts place the faults: '
+        '(short key, long key sharing its first component, change of what a later component extends, probe) triples, and registry chains '
+        'with (own change, re-basing of a base) pairs and alternating changes in two ancestors; distinct_nontrivial = '
         'distinct (entry point, arity, empty?) states',
    assumptions=['the cold twin shares every non-cache defect with the original, so only cache incoherence can differ', REG_STUB],
    level_text='differential oracle that is exactly the statement: warm registry vs a registry that performed no earlier lookups after the same '
@@ -231,9 +242,9 @@ _p('C09', 'exploration',
    technique='deterministic simulation: seeded bookkeeping histories vs model dict + rebuild/replay equivalence',
    design_ref='DESIGN.md 3/C09', expected_probes=['overwrite', 'identical-re-registration', 'register-None', 'last-entry-of-arity-removed', 'replay-into-empty'])
 
-PROPS['C05'].parts.append(Part('registry', {'props': ['C05'], 'shape': 'specdyn'}, configs=[(C, 2), (PY, 2)], quick=4000, thorough=200000,
+PROPS['C05'].parts.append(Part('registry', {'props': ['C05'], 'shape': 'specdyn'}, configs=[(C, 2), (PY, 2)], quick=3000, thorough=200000,
                                name='registry/C05/specs', timeout=40.0))
-PROPS['C05'].parts.append(Part('registry', {'props': ['C05'], 'shape': 'chain'}, configs=[(C, 2), (PY, 2)], quick=4000, thorough=200000,
+PROPS['C05'].parts.append(Part('registry', {'props': ['C05'], 'shape': 'chain'}, configs=[(C, 2), (PY, 2)], quick=3000, thorough=200000,
                                name='registry/C05/chains', timeout=40.0))
 
 
@@ -276,7 +287,8 @@ _p('C12', 'exploration',
    [Part('persist', {'what': 'order'}, configs=[(C, 4), (PY, 3), (C_H1, 1), (PY_H7, 1)], quick=16000, thorough=600000, name='persist/order-laws'),
     Part('persist', {'what': 'order'}, kind='diff', diff=[C, C_H1, C_H2, PY, PY_H7], quick=2500, thorough=100000, name='persist/order-across-processes')],
    rule='one case = one seeded pool of 4-9 interfaces and class specifications whose (name, module) pairs come from an adversarial vocabulary '
-        '(empty, equal, prefix-related, non-ASCII, equal name / other module and vice versa), plus None and foreign objects; all ordered pairs x '
+        '(empty, equal, prefix-related, non-ASCII, equal name / other module and vice versa; each string independently an interned or a '
+        'freshly built object; one world in ten made of interfaces whose "name" contains a blank, i.e. __name__ None), plus None and foreign objects; all ordered pairs x '
         'six operators are compared with the key model, hashes of equal interfaces, sorted() of several permutations; the second part executes '
         'the same seeds in worker processes with PYTHONHASHSEED 0 / 1 / 12345 under both implementations and diffs the logs (sorted order, '
         'comparison matrix incl. foreign operands); distinct_nontrivial = distinct (kinds, names equal?, modules equal?, operator, result) states',
@@ -290,7 +302,8 @@ _p('C12', 'exploration',
 _p('C13', 'exploration',
    [Part('persist', {'what': 'pickle'}, configs=[(C, 4), (PY, 3), (C_H1, 1), (PY_H7, 1)], quick=14000, thorough=500000, name='persist/pickle'),
     Part('persist', {'what': 'pickle', 'restart': True}, configs=[(C, 1), (PY, 1)], quick=700, thorough=20000, name='persist/restart', batch=10, timeout=90.0)],
-   rule='one case = one seeded declaration history (instance and class declarations of every shape, incl. the only / first / provider forms at '
+   rule='one case = one seeded declaration history (instance and class declarations of every shape, incl. alsoProvides / noLongerProvides on classes, classes that are false in a boolean '
+        'context, the only / first / provider forms at '
         'import time of a generated importable module) followed by dump of every interface, class specification, class and instance '
         'provides-declaration, declared object and _empty with a PRNG-chosen protocol, then load in the same process (optionally after a gc fault) '
         'or in a fresh interpreter of the other implementation / hash seed that regenerates the module (restart: only the pickle survives); '
@@ -330,22 +343,27 @@ _p('C10', 'translation_validation',
 
 _p('C11', 'fault_enumeration',
    [Part('race', {'part': 'reenter'}, configs=[(C, 1), (PY, 1)], kind='enum', name='race/reenter-product', timeout=180.0),
-    Part('race', {'part': 'threads'}, configs=[(C, 5), (PY, 3), (C_H1, 1)], quick=9000, thorough=600000, name='race/threads', timeout=60.0, batch=50),
+    Part('race', {'part': 'threads'}, configs=[(C, 5), (PY, 3), (C_H1, 1)], quick=6400, thorough=600000, name='race/threads', timeout=60.0, batch=50),
     Part('race', {'part': 'reenter', 'asan': True}, configs=[(C_ASAN, 1)], kind='enum', name='race/reenter-product/asan', timeout=300.0),
-    Part('race', {'part': 'threads', 'asan': True}, configs=[(C_ASAN, 1)], quick=1500, thorough=120000, name='race/threads/asan', timeout=120.0, batch=25),
-    Part('race', {'part': 'reenter', 'asan': True, 'stride': 4, 'block': 70}, configs=[(C_VALGRIND, 1)], kind='enum', name='race/reenter-product/memcheck', timeout=600.0),
-    Part('race', {'part': 'threads', 'asan': True}, configs=[(C_VALGRIND, 1)], quick=100, thorough=20000, name='race/threads/memcheck', timeout=300.0, batch=10)],
+    Part('race', {'part': 'threads', 'asan': True}, configs=[(C_ASAN, 1)], quick=800, thorough=120000, name='race/threads/asan', timeout=120.0, batch=25),
+    Part('race', {'part': 'reenter', 'asan': True, 'stride': 6, 'block': 50}, configs=[(C_VALGRIND, 1)], kind='enum', name='race/reenter-product/memcheck', timeout=600.0),
+    Part('race', {'part': 'threads', 'asan': True}, configs=[(C_VALGRIND, 1)], quick=64, thorough=20000, name='race/threads/memcheck', timeout=300.0, batch=4)],
    rule='Part A (enumerated completely): one case = one lookup through one of the nine entry points on a two-level registry chain of either '
         'flavour, with one callback point armed (lazy required iterable, __providedBy__ descriptor, overridden _uncached_* before/after delegating, '
         'a required specification with a Python-level subscribe, _generation as a property of the base registry, an overridden changed(), the '
         'factory) to perform one injected action (register/unregister/subscribe/unsubscribe on the registry or its base, registry __bases__, '
         're-basing a required interface, class declaration change, rebuild(), changed(), recursive lookups, gc with a mutating finalizer, raise) '
-        'in one of three cache states; oracles: ownership audit of the cache dictionaries at callback exit, answer in {before, after}, the next '
+        'in one of three cache states (the callback points include the lookup object\'s changed() before it refreshes); oracles: ownership audit of the cache dictionaries at callback exit, answer in {before, after}, the next '
         'lookup equals the final state, injected exceptions propagate, no other exception, reference balance of operands and cached results over '
         'repetitions.  Part B (sampled): 2-4 real threads under a baton scheduler whose PRNG decides every pre-emption at line events inside '
         'zope/interface/*.py, k lookup threads and 0-1 mutator (or lookup-only after a base-registry change), locks the library takes are '
         'simulator-owned; oracles: no crash, no exception in a lookup, every answer equals the model in one of the states its interval overlaps, '
-        'final re-ask equals the final state; distinct_nontrivial = distinct (flavour, entry, callback point, action, cache state, fired?) cases '
+        'final re-ask equals the final state.  Both parts are repeated without pins under AddressSanitizer (clang build of the extension) and '
+        'under valgrind memcheck (which also sees what libpython touches on behalf of the extension), with the dict free lists filled before '
+        'and flushed after each injected mutation; further oracles of part A: every cache dictionary has exactly one owner after each case, '
+        'and reference counts of the operands do not drift over 25 lookups that leave through the error path (callback raises, cold caches). '
+        'One thread world in four pre-empts between bytecodes instead of lines; one mutator step in eight is a garbage collection.  '
+        'distinct_nontrivial = distinct (flavour, entry, callback point, action, cache state, fired?) cases '
         'plus (configuration, flavour, entry, overlapped mutations) thread states',
    assumptions=['CPython hands over the GIL only between bytecodes, never inside the extension, so line-event pre-emption of the Python callbacks '
                 'is a superset of the real switch points inside a C lookup', 'an exception seen by the mutator thread is not by itself a violation',
